@@ -38,7 +38,10 @@ Section MemberG.
   Hypothesis Hpar : parent_name k = Some kd.
   Hypothesis Hq : is_qualified k = true.
   (* k is claimed by this TypeSet alone *)
-  Hypothesis G1 : forall j, find_existing_path ixs j k = None.
+  (* a file at the path derived from k, in whatever loader, is not a definition of k (malformed, misnamed, empty,
+     unreadable: every lookup that reaches it reports its error) *)
+  Hypothesis G1 : forall j origins f v, find_existing_path ixs j k = Some origins ->
+                                        file_at (mod_at j) (hd [] origins) = Some f -> ~ good_for f k v.
   Hypothesis G2 : forall j p f d l m, j <> i -> file_at (mod_at j) p = Some f -> f_content f = CTypeSet d l ->
                                       In m l -> lower (d ++ s_dc ++ m) <> k.
   Hypothesis G3 : shadow w k = None.
@@ -479,6 +482,46 @@ Section MemberG.
             -- right. rewrite Hge, get_upd_ent, E in H1. exact H1.
     Qed.
 
+    (* the file at the path derived from k is bad for k: its instantiation fails at once *)
+    Lemma inst_body_bad cl j origins s s' r :
+      find_existing_path ixs j k = Some origins -> inst_body w LE cl j k (hd [] origins) s = (s', r) ->
+      s' = s /\ forall a, r <> Ok a.
+    Proof.
+      intros F Hm. unfold inst_body, content_at in Hm.
+      destruct (file_at (mod_at j) (hd [] origins)) as [f|] eqn:Hf; [|inversion Hm; split; [reflexivity|discriminate]].
+      destruct (f_content f) as [d refs|refs|d l|line| |] eqn:Hc;
+        try (inversion Hm; split; [reflexivity|discriminate]).
+      - destruct (str_eqb (lower d) k) eqn:Ed; [|inversion Hm; split; [reflexivity|discriminate]].
+        exfalso. apply (G1 j origins f {| tv_name := k; tv_marker := f_marker f; tv_ts := false |} F Hf).
+        unfold good_for. rewrite Hc. split; [apply str_eqb_eq; exact Ed|reflexivity].
+      - exfalso. apply (G1 j origins f {| tv_name := k; tv_marker := f_marker f; tv_ts := false |} F Hf).
+        unfold good_for. rewrite Hc. reflexivity.
+      - destruct (str_eqb (lower d) k) eqn:Ed; [|inversion Hm; split; [reflexivity|discriminate]].
+        exfalso. apply (G1 j origins f {| tv_name := k; tv_marker := 0%N; tv_ts := true |} F Hf).
+        unfold good_for. rewrite Hc. split; [apply str_eqb_eq; exact Ed|reflexivity].
+    Qed.
+
+    Lemma gx_instantiate_k cl j origins :
+      find_existing_path ixs j k = Some origins -> origin_of w j k = Some (hd [] origins) ->
+      gx (instantiate w LE cl j k origins).
+    Proof.
+      intros F Ho. split; [eapply good_instantiate; eauto|].
+      intros s s' r Hd HP Hm. destruct (get_entry s j k) as [e0|] eqn:Hg.
+      - unfold instantiate, bind, get_entry_m in Hm. rewrite Hg in Hm. inversion Hm; subst s' r.
+        split; [exact HP|intros; apply QQ_refl].
+      - rewrite (instantiate_unfold w LE cl j k origins s Hg) in Hm.
+        remember (after_read s j k (hd [] origins)) as s1 eqn:Es1.
+        assert (Hge : forall i' k', get_entry s1 i' k' = get_entry (upd_ent s j k None) i' k') by (subst s1; reflexivity).
+        assert (Hdp : st_dep s1 = st_dep s) by (subst s1; reflexivity).
+        assert (HP1 : P s1).
+        { apply (P_ext (upd_ent s j k None) s1 Hge); [rewrite Hdp; reflexivity|].
+          apply P_upd_none; [left; exact Hg|exact HP]. }
+        destruct (inst_body w LE {| cl_ctx := cl_ctx cl; cl_def := Some j |} j k (hd [] origins) s1) as [s3 r3] eqn:E3.
+        destruct (inst_body_bad _ j origins s1 s3 r3 F E3) as [Hs3 Hr3]. subst s3.
+        destruct r3 as [a3|e3| |]; [exfalso; exact (Hr3 a3 eq_refl)| | |];
+          inversion Hm; subst s' r; (split; [exact HP1|intros a Ha; discriminate Ha]).
+    Qed.
+
     Lemma gx_psearch cl j k0 anc : gx (psearch FD cl j k0 anc).
     Proof.
       induction anc as [|ts rest IH]; cbn [psearch]; [apply gx_ret|].
@@ -496,8 +539,9 @@ Section MemberG.
                          | None => if is_qualified k0 then psearch FD cl j k0 (ancestors k0) else ret None
                          end)).
       { intros Hqq. destruct (find_existing_path ixs j k0) as [origins|] eqn:F.
-        - apply gx_instantiate; [rewrite (origin_general w j k0 Hqq), F; reflexivity|].
-          intros E. rewrite E, G1 in F. discriminate F.
+        - assert (Ho : origin_of w j k0 = Some (hd [] origins)) by (rewrite (origin_general w j k0 Hqq), F; reflexivity).
+          destruct (list_eq_dec N.eq_dec k0 k) as [E|E]; [|apply gx_instantiate; assumption].
+          subst k0. apply gx_instantiate_k; assumption.
         - destruct (is_qualified k0); [apply gx_psearch|apply gx_ret]. }
       destruct (is_global (mod_at j)) eqn:G; [apply Hgen; left; reflexivity|].
       unfold parts_checked. destruct (forallb valid_seg (split_dc k0)) eqn:V; [|apply gx_fail].
@@ -553,10 +597,28 @@ Section MemberG.
       destruct (tv_ts v); inversion Hm; subst s1 e. exact (instantiate_ret _ _ _ _ _ _ _ E1).
     Qed.
 
-    Lemma find_k_eq cl s : find w ixs LE FD cl i k s = psearch FD cl i k (kd :: ancestors kd) s.
+    (* with a (bad) file at the path derived from k, find for (i, k) from a nil entry never ends without error *)
+    Lemma find_k_bad cl origins s s' e :
+      find_existing_path ixs i k = Some origins -> get_entry s i k = None ->
+      find w ixs LE FD cl i k s = (s', Ok e) -> False.
     Proof.
+      intros F Hg Hm.
+      assert (Hfi : find w ixs LE FD cl i k s = instantiate w LE cl i k origins s).
+      { unfold find. rewrite F, Hq. destruct Hrtk as [Hgl|[Hv Hn]]; [rewrite Hgl; reflexivity|].
+        destruct (is_global (mod_at i)); [reflexivity|]. unfold parts_checked. rewrite Hv, Hn. reflexivity. }
+      rewrite Hfi, (instantiate_unfold w LE cl i k origins s Hg) in Hm.
+      destruct (inst_body w LE {| cl_ctx := cl_ctx cl; cl_def := Some i |} i k (hd [] origins) (after_read s i k (hd [] origins)))
+        as [s3 r3] eqn:E3.
+      destruct (inst_body_bad _ i origins _ s3 r3 F E3) as [_ Hr3].
+      destruct r3 as [a3|e3| |]; [exact (Hr3 a3 eq_refl)|discriminate Hm|discriminate Hm|discriminate Hm].
+    Qed.
+
+    Lemma find_k_eq cl s : find_existing_path ixs i k = None ->
+      find w ixs LE FD cl i k s = psearch FD cl i k (kd :: ancestors kd) s.
+    Proof.
+      intros F.
       assert (Ha : ancestors k = kd :: ancestors kd) by (rewrite (ancestors_unfold k), Hpar; reflexivity).
-      unfold find. rewrite G1, Hq, Ha. destruct Hrtk as [Hg|[Hv Hn]]; [rewrite Hg; reflexivity|].
+      unfold find. rewrite F, Hq, Ha. destruct Hrtk as [Hg|[Hv Hn]]; [rewrite Hg; reflexivity|].
       destruct (is_global (mod_at i)); [reflexivity|]. unfold parts_checked. rewrite Hv, Hn. reflexivity.
     Qed.
 
@@ -597,7 +659,8 @@ Section MemberG.
         + apply mk_eqb_eq in Ek. inversion Ek; subst j k0. split.
           * intros H. right. destruct (get_entry s i kd) as [x|] eqn:Ekd.
             -- apply (kd_miss_end s s2); [eapply R_trans; eauto|exact HP2|rewrite Ekd; discriminate|exact H].
-            -- rewrite find_k_eq in Ef.
+            -- destruct (find_existing_path ixs i k) as [origins|] eqn:F; [exfalso; exact (find_k_bad cl origins s s1 None F Hg Ef)|].
+               rewrite (find_k_eq cl s F) in Ef.
                destruct (psearch_k cl (ancestors kd) s s1 None Hd HP Hg Ekd Ef) as [[v Hv]|Hfl]; [discriminate Hv|].
                right. exact (flag_R _ _ HR2 Hfl).
           * intros Hfl. apply (proj2 (HQ1 _ eq_refl)). eapply set_none_flag; eauto.
@@ -629,9 +692,10 @@ Section MemberG.
             rewrite Hv' in Hg. discriminate Hg.
           * right. apply (flag_R _ _ HRo). exists v. split; [exact Ekd|exact Et].
         + left; reflexivity.
-        + right. rewrite find_k_eq in Hm.
-          destruct (psearch FD cl i k (kd :: ancestors kd) s) as [s1 r1] eqn:Ef.
+        + right. destruct (find w ixs LE FD cl i k s) as [s1 r1] eqn:Ef.
           destruct r1 as [e1|e1| |]; try discriminate Hm.
+          destruct (find_existing_path ixs i k) as [origins|] eqn:F; [exfalso; exact (find_k_bad cl origins s s1 e1 F Hg Ef)|].
+          rewrite (find_k_eq cl s F) in Ef.
           destruct (psearch_k cl (ancestors kd) s s1 e1 Hd HP Hg Ekd Ef) as [[v Hv]|Hfl].
           * subst e1. inversion Hm; subst e. exfalso. eapply Hnv; reflexivity.
           * destruct e1 as [x|].
@@ -1022,19 +1086,28 @@ End MemberG.
 
 (* nothing else stands for k - WITHOUT the fourth guard of sole_claimant: a TypeSet file of loader i may declare a
    member named like the TypeSet kd itself (a TypeSet that is a member of another TypeSet and has its own file) *)
+(* a file at the path derived from k, in whatever loader, is not a definition of k (malformed, misnamed, without
+   definition, unreadable): every lookup that reaches it reports its error; in particular: no file there at all *)
+Definition no_good_file (w : world) (k : str) : Prop :=
+  forall j origins f v, find_existing_path (indexes_of w) j k = Some origins ->
+                        file_at (mod_at w j) (hd [] origins) = Some f -> ~ good_for f k v.
+
+Lemma no_file_no_good_file w k : (forall j, find_existing_path (indexes_of w) j k = None) -> no_good_file w k.
+Proof. intros H j origins f v F. rewrite H in F. discriminate F. Qed.
+
 Definition sole_claimant3 (w : world) (i : nat) (k : str) : Prop :=
-  (forall j, find_existing_path (indexes_of w) j k = None) /\
+  no_good_file w k /\
   (forall j p f d l m, j <> i -> file_at (mod_at w j) p = Some f -> f_content f = CTypeSet d l -> In m l ->
                        lower (d ++ s_dc ++ m) <> k) /\
   shadow w k = None.
 
 Lemma sole_claimant_3 w i kd k : sole_claimant w i kd k -> sole_claimant3 w i k.
-Proof. intros (G1 & G2 & G3 & _). split; [exact G1|split; [exact G2|exact G3]]. Qed.
+Proof. intros (G1 & G2 & G3 & _). split; [exact (no_file_no_good_file w k G1)|split; [exact G2|exact G3]]. Qed.
 
 
 (* ... and without the third: the parent may bind k (then the parent's binding is found: FileLoaderParentBound.v) *)
 Definition sole_claimant2 (w : world) (i : nat) (k : str) : Prop :=
-  (forall j, find_existing_path (indexes_of w) j k = None) /\
+  no_good_file w k /\
   (forall j p f d l m, j <> i -> file_at (mod_at w j) p = Some f -> f_content f = CTypeSet d l -> In m l ->
                        lower (d ++ s_dc ++ m) <> k).
 
@@ -1094,19 +1167,41 @@ Proof.
 Qed.
 
 (* ---- decidable forms ---- *)
+Definition no_good_file_b (w : world) (k : str) : bool :=
+  forallb (fun j => match find_existing_path (indexes_of w) j k with
+                    | None => true
+                    | Some origins => match file_at (mod_at w j) (hd [] origins) with
+                                      | Some f => negb (good_for_b f k)
+                                      | None => true
+                                      end
+                    end) (seq 0 (length (w_mods w))).
+
+Lemma good_for_b_of f k v : good_for f k v -> good_for_b f k = true.
+Proof.
+  unfold good_for, good_for_b. destruct (f_content f); try contradiction.
+  - intros [H _]. rewrite H. apply str_eqb_refl.
+  - reflexivity.
+  - intros [H _]. rewrite H. apply str_eqb_refl.
+Qed.
+
+Lemma no_good_file_b_true w k : no_good_file_b w k = true -> no_good_file w k.
+Proof.
+  unfold no_good_file_b. rewrite forallb_forall. intros H j origins f v F Hf Hg.
+  destruct (Nat.lt_ge_cases j (length (w_mods w))) as [Hj|Hj].
+  - specialize (H j ltac:(apply in_seq; lia)). rewrite F, Hf in H. rewrite (good_for_b_of f k v Hg) in H. discriminate H.
+  - rewrite (mod_at_overflow w j Hj) in Hf. discriminate Hf.
+Qed.
+
 Definition sole3_b (w : world) (i : nat) (k : str) : bool :=
-  forallb (fun j => match find_existing_path (indexes_of w) j k with None => true | Some _ => false end)
-          (seq 0 (length (w_mods w))) &&
+  no_good_file_b w k &&
   forallb (fun j => (j =? i) || forallb (no_member_named k) (m_walk (mod_at w j))) (seq 0 (length (w_mods w))) &&
   match shadow w k with None => true | Some _ => false end.
 
 Lemma sole3_b_true w i k : sole3_b w i k = true -> sole_claimant3 w i k.
 Proof.
-  unfold sole3_b. rewrite !andb_true_iff. intros [[H1 H2] H3]. rewrite forallb_forall in H1, H2.
+  unfold sole3_b. rewrite !andb_true_iff. intros [[H1 H2] H3]. rewrite forallb_forall in H2.
   split; [|split].
-  - intros j. destruct (Nat.lt_ge_cases j (length (w_mods w))) as [Hj|Hj].
-    + specialize (H1 j ltac:(apply in_seq; lia)). destruct (find_existing_path (indexes_of w) j k); [discriminate H1|reflexivity].
-    + unfold find_existing_path. rewrite (nth_overflow (indexes_of w) []); [reflexivity|]. unfold indexes_of. rewrite map_length. exact Hj.
+  - exact (no_good_file_b_true w k H1).
   - intros j p f d l m Hne Hf Hc Hin. destruct (Nat.lt_ge_cases j (length (w_mods w))) as [Hj|Hj].
     + specialize (H2 j ltac:(apply in_seq; lia)). apply orb_true_iff in H2. destruct H2 as [H2|H2]; [apply Nat.eqb_eq in H2; contradiction|].
       rewrite forallb_forall in H2. exact (no_member_named_ok k f d l m (H2 f (file_at_in _ _ _ Hf)) Hc Hin).
@@ -1115,17 +1210,14 @@ Proof.
 Qed.
 
 Definition sole2_b (w : world) (i : nat) (k : str) : bool :=
-  forallb (fun j => match find_existing_path (indexes_of w) j k with None => true | Some _ => false end)
-          (seq 0 (length (w_mods w))) &&
+  no_good_file_b w k &&
   forallb (fun j => (j =? i) || forallb (no_member_named k) (m_walk (mod_at w j))) (seq 0 (length (w_mods w))).
 
 Lemma sole2_b_true w i k : sole2_b w i k = true -> sole_claimant2 w i k.
 Proof.
-  unfold sole2_b. rewrite !andb_true_iff. intros [H1 H2]. rewrite forallb_forall in H1, H2.
+  unfold sole2_b. rewrite !andb_true_iff. intros [H1 H2]. rewrite forallb_forall in H2.
   split.
-  - intros j. destruct (Nat.lt_ge_cases j (length (w_mods w))) as [Hj|Hj].
-    + specialize (H1 j ltac:(apply in_seq; lia)). destruct (find_existing_path (indexes_of w) j k); [discriminate H1|reflexivity].
-    + unfold find_existing_path. rewrite (nth_overflow (indexes_of w) []); [reflexivity|]. unfold indexes_of. rewrite map_length. exact Hj.
+  - exact (no_good_file_b_true w k H1).
   - intros j p f d l m Hne Hf Hc Hin. destruct (Nat.lt_ge_cases j (length (w_mods w))) as [Hj|Hj].
     + specialize (H2 j ltac:(apply in_seq; lia)). apply orb_true_iff in H2. destruct H2 as [H2|H2]; [apply Nat.eqb_eq in H2; contradiction|].
       rewrite forallb_forall in H2. exact (no_member_named_ok k f d l m (H2 f (file_at_in _ _ _ Hf)) Hc Hin).
